@@ -121,4 +121,54 @@ theorem c08_concurrent_window_witness :
     (List.range 13).map (window cfgP rsP) = [[], [3, 4], [3, 4], [4], [4], [], [5, 6], [5, 6], [5], [5], [], [], []] := by
   decide
 
+theorem execLoop_started_last (i n e0 : Nat) (rs : List SResp) (h : (execLoop i n e0 rs).2 = none) :
+    ∃ k, (execLoop i n e0 rs).1.getLast? = some (.exec k) := by
+  induction n generalizing i e0 rs with
+  | zero => simp [execLoop] at h
+  | succ n ih =>
+    cases rs with
+    | nil => simp [execLoop] at h
+    | cons r rs =>
+      cases r with
+      | started => exact ⟨i, by simp [execLoop]⟩
+      | err e' =>
+        simp only [execLoop] at h ⊢
+        obtain ⟨k, hk⟩ := ih (i + 1) e' rs h
+        refine ⟨k, ?_⟩
+        cases hl : (execLoop (i + 1) n e' rs).1 with
+        | nil => rw [hl] at hk; simp at hk
+        | cons x xs => rw [hl] at hk; simpa [List.getLast?_cons_cons] using hk
+      | _ =>
+        simp only [execLoop] at h ⊢
+        obtain ⟨k, hk⟩ := ih (i + 1) e0 rs h
+        refine ⟨k, ?_⟩
+        cases hl : (execLoop (i + 1) n e0 rs).1 with
+        | nil => rw [hl] at hk; simp at hk
+        | cons x xs => rw [hl] at hk; simpa [List.getLast?_cons_cons] using hk
+
+/-- **C08 (the forked child never comes back).**  Whatever the operating system answers to the
+    child's steps, the child's own call sequence ends in one of exactly two ways: an `exec` that
+    started the program, or `_exit(127)` after a failure.  There is no third way out — in
+    particular no step whose failure lets the child *return* into the caller's code as a second
+    copy of the calling program, where it would hold every descriptor the caller had at fork time
+    (the parent's ends of all live pipes included) with close-on-exec never applying. -/
+theorem c08_child_ends_in_exec_or_exit (c : Cfg) (p : Pipes) (sr sw : Nat) (rs : List SResp) :
+    ((childRun c p sr sw rs).2 = none ∧ ∃ k, (childRun c p sr sw rs).1.getLast? = some (.exec k)) ∨
+    ((childRun c p sr sw rs).2 ≠ none ∧ (childRun c p sr sw rs).1.getLast? = some (.exit 127)) := by
+  unfold childRun
+  split
+  · right; simp
+  · rename_i calls rs' heq
+    split
+    · rename_i ecalls heq2
+      left
+      have h := execLoop_started_last 0 c.ncand ENOENT rs' (by rw [heq2])
+      rw [heq2] at h
+      obtain ⟨k, hk⟩ := h
+      refine ⟨rfl, k, ?_⟩
+      cases ecalls with
+      | nil => simp at hk
+      | cons x xs => simpa [List.getLast?_append] using hk
+    · right; simp
+
 end Spawn
